@@ -285,7 +285,7 @@ theorem inBox_of_tidy (s : Shape) (ht : s.Tidy) : s.InBox := by
       simp only [Shape.pos, Shape.sinkPos, Shape.Tidy, vp, if_true, Option.map_eq_some_iff, Option.some.injEq] at hp ht <;>
       (try (obtain ⟨sel, hsel, hp⟩ := hp; have hlt := bind_lastIdx_lt _ _ _ hsel)) <;>
       subst hp <;>
-      simp only [Shape.width, Shape.height, genericY, namemargin, portmargin, portpitch, instanceportheight, slack] <;>
+      simp only [Shape.width, Shape.height, Shape.genericHeight, genericY, namemargin, portmargin, portpitch, instanceportheight, slack] <;>
       omega
   | out i =>
     simp only [Shape.valid] at vp
@@ -293,7 +293,7 @@ theorem inBox_of_tidy (s : Shape) (ht : s.Tidy) : s.InBox := by
       simp only [Shape.pos, Shape.srcPos, Shape.Tidy, vp, if_true, Option.map_eq_some_iff, Option.some.injEq] at hp ht <;>
       (try (obtain ⟨sel, hsel, hp⟩ := hp; have hlt := bind_lastIdx_lt _ _ _ hsel)) <;>
       subst hp <;>
-      simp only [Shape.width, Shape.height, genericY, namemargin, portmargin, portpitch, instanceportheight, slack] <;>
+      simp only [Shape.width, Shape.height, Shape.genericHeight, genericY, namemargin, portmargin, portpitch, instanceportheight, slack] <;>
       omega
 
 end Schem.Pins
@@ -310,9 +310,10 @@ theorem realizable_fits_iff (s : Shape) (hr : s.Realizable) : s.Fits ↔ ¬ (s.c
   obtain ⟨cls, iw, ins, outs⟩ := s
   cases cls <;> simp only [Shape.Realizable, Shape.Fits] at hr ⊢ <;> simp <;> omega
 
-theorem realizable_tidy_iff (s : Shape) (hr : s.Realizable) : s.Tidy ↔ ¬ (s.cls = .scope ∧ 4 ≤ s.ins.length) := by
+/-- since /repo 0891c9c: EVERY realizable shape keeps its pins in its box — no exception left -/
+theorem realizable_tidy (s : Shape) (hr : s.Realizable) : s.Tidy := by
   obtain ⟨cls, iw, ins, outs⟩ := s
-  cases cls <;> simp only [Shape.Realizable, Shape.Tidy] at hr ⊢ <;> simp <;> omega
+  cases cls <;> simp only [Shape.Realizable, Shape.Tidy] at hr ⊢ <;> omega
 
 end Schem.Pins
 
@@ -391,9 +392,10 @@ theorem same_name_same_pos (s : Shape) (i j : Nat) (h : s.outs[i]? = s.outs[j]?)
   obtain ⟨cls, iw, ins, outs⟩ := s
   cases cls <;> simp only [Shape.srcPos] <;> simp only at h <;> rw [h]
 
-/-- a Scope with a fourth input reports that pin 25 pixels below its own box (height 80, the pin at 105) -/
-theorem scope4_outside (s : Shape) (hc : s.cls = .scope) (h4 : 4 ≤ s.ins.length) :
-    s.sinkPos 3 = some (0, 105) ∧ s.height = 80 ∧ ¬ s.InBox := by
+/-- HISTORY (tree before /repo 0891c9c, `oldScopeHeight`): a Scope with a fourth input reported that pin 25 pixels below its own box
+    (height 80, the pin at 105) -/
+theorem scope4_outside_old (s : Shape) (hc : s.cls = .scope) (h4 : 4 ≤ s.ins.length) :
+    s.sinkPos 3 = some (0, 105) ∧ s.oldHeight = 80 ∧ ¬ s.OldInBox := by
   obtain ⟨cls, iw, ins, outs⟩ := s
   simp only at hc h4
   subst hc
@@ -402,7 +404,11 @@ theorem scope4_outside (s : Shape) (hc : s.cls = .scope) (h4 : 4 ≤ s.ins.lengt
     simp [Shape.sinkPos, this, genericY, namemargin, portmargin, portpitch, instanceportheight]
   refine ⟨e, rfl, fun h => ?_⟩
   have := h (.inp 3) (0, 105) (by simp only [Shape.valid]; omega) e
-  simp only [Shape.height, slack] at this
+  simp only [Shape.oldHeight, oldScopeHeight, slack] at this
   omega
+
+/-- the repair: with the new height the same pin is inside the box, for every number of inputs -/
+theorem scope_inBox (s : Shape) (hc : s.cls = .scope) : s.InBox :=
+  inBox_of_tidy s (by obtain ⟨cls, iw, ins, outs⟩ := s; simp only at hc; subst hc; simp [Shape.Tidy])
 
 end Schem.Pins
